@@ -1911,6 +1911,7 @@ def _json_loads(it, a, k):
     import json
 
     if it.branch(json_ok(Py.s(s))):
+        it.assume(S.json_value(json_loads(Py.s(s))))
         return json_loads(Py.s(s))
     raise PyRaise(ExcVal(json.JSONDecodeError, [S.mk_str("malformed")]))
 
